@@ -28,7 +28,7 @@ PROBE_NAMES = ["user_name_avp", "user_name_avp__1", "origin_host_avp", "unknown_
                "custom_avp", "host", "user_name_avp__2", "origin_realm_avp",
                # names of the container's own attributes are not AVPs
                "_header", "_avps", "_loaded"]
-NEW_KEYS = ["custom_avp", "host"]
+NEW_KEYS = ["custom_avp", "host", "_avps", "_header"]     # the last two: the container's own attributes as rename targets
 UPDATES = [("user_name", "b"), ("origin_host", "x.example"), ("nonexistent", "v"), ("user_name__1", "c")]
 
 
@@ -237,18 +237,18 @@ PROFILES = {
     # tier -> kind -> (letters, list cap, new keys, updates, set_avps pairs?)
     "quick": {
         "empty": (["A", "A2", "B", "U"], 3, NEW_KEYS[1:], UPDATES[:1] + UPDATES[2:3], False),
-        "dwr": (["A", "A2"], 3, NEW_KEYS[:1], UPDATES[:3], False),
+        "dwr": (["A", "A2"], 3, NEW_KEYS[:1] + ["_avps"], UPDATES[:3], False),
         "ulr": (["A", "A2"], None, [], UPDATES[:3], False),
         # messages as the decoder returns them (the 'loaded' flag keeps the wire length until the content changes)
         "loaded-empty": (["A", "B"], 2, NEW_KEYS[:1], UPDATES[:1], False),
-        "loaded-dwr": (["A"], 3, NEW_KEYS[:1], UPDATES[:2], False),
+        "loaded-dwr": (["A"], 3, NEW_KEYS[:1] + ["_header", "dump"], UPDATES[:2], False),
     },
     "thorough": {
         "loaded-empty": (["A", "A2", "B"], 3, NEW_KEYS[:1], UPDATES[:1] + UPDATES[2:3], False),
         "loaded-dwr": (["A", "A2"], 4, NEW_KEYS[:1], UPDATES[:3], False),
         "empty": (LETTERS, 3, NEW_KEYS[1:], UPDATES[:1] + UPDATES[2:3], True),
         "empty4": (["A", "A2", "B"], 4, NEW_KEYS[:1], UPDATES[:1] + UPDATES[2:3], False),
-        "dwr": (["A", "A2", "U"], 4, NEW_KEYS[:1], UPDATES, False),
+        "dwr": (["A", "A2", "U"], 4, NEW_KEYS[:1] + ["_avps", "_header"], UPDATES, False),
         "ulr": (["A", "A2"], None, [], UPDATES, False),
     },
 }
@@ -273,6 +273,8 @@ class ContainerModel:
         return st
 
     def enabled(self, st):
+        if getattr(st, "broken", False):
+            return []
         letters, _cap, new_keys, updates, pairs = self.profile
         lst, view = st.lst(), st.view()
         present = {st.label(o) for o in lst}
@@ -321,10 +323,20 @@ class ContainerModel:
             # the statement constrains the state after every operation, not which exception a refused
             # operation raises: a raising operation is a no-op for the reference, coherence is still checked
             outcome = "rejected"
+        # the message must still be a message: its own attributes (_avps, _header) untouched by the operation
+        from bromelia.base import DiameterHeader
+        own = st.msg.__dict__
+        if not isinstance(own.get("_avps"), list) or not isinstance(own.get("_header"), DiameterHeader):
+            st.broken = True
+            return st, [(f"C11:{op[0]}:container-destroyed",
+                         f"after {op} the message's own attribute(s) are overwritten: _avps is {type(own.get('_avps')).__name__}, "
+                         f"_header is {type(own.get('_header')).__name__}")]
         errs = check_invariants(st, before_list, before_view, op, outcome)
         return st, errs
 
     def canon(self, st):
+        if getattr(st, "broken", False):
+            return ("broken",)
         lst, view = st.lst(), st.view()
         labs = tuple(st.label(o) for o in lst)
         pos = {id(o): i for i, o in enumerate(lst)}
